@@ -422,6 +422,7 @@ class Request(SimpleRequest):
         self.__authorization = None
 
         self.__file = environ.get("wsgi.input")
+        self.__read_length = 0      # bytes of body which was read by read method
         self._errors = environ.get("wsgi.errors")
 
         if app.auto_data and \
@@ -459,6 +460,7 @@ class Request(SimpleRequest):
                 strict_parsing=app.strict_parsing,
                 file_callback=app.file_callback)
             self.__form = form_parser.parse()
+            self.__read_length = self.__content_length  # read by parser
             self.__json = EmptyForm()
         else:
             self.__form = EmptyForm()
@@ -717,22 +719,26 @@ class Request(SimpleRequest):
         self.__db = value
 
     # -------------------------- Methods --------------------------- #
-    def __read(self, length: int = -1):
-        return self.__file.read(length)
-
-    def read(self, length=-1):  # pylint: disable=method-hidden
+    def read(self, length=-1):
         """Read data from client (typical for XHR2 data POST).
 
         If length is not set, or if is lower then zero, Content-Length was
-        be use.
+        be use. Never more than rest of Content-Length is read.
         """
         if not self.is_body_request and self.server_protocol != "HTTP/0.9":
             log.error("No Content-Length found, read was failed!")
             return b''
-        if -1 < length < self.__content_length:
-            self.read = self.__read
-            return self.read(length)
-        return self.__file.read(self.__content_length)
+        if self.__content_length < 0:   # HTTP/0.9 without Content-Length
+            return self.__file.read(length)
+        if isinstance(self.input, CachedInput):  # it knows rest of the body
+            return self.input.read(
+                self.__content_length if length < 0 else length)
+        todo = self.__content_length - self.__read_length
+        if length < 0 or length > todo:
+            length = todo
+        data = self.__file.read(length)
+        self.__read_length += len(data)
+        return data
 
     def read_chunk(self):
         """Read chunk when Transfer-Encoding is `chunked`.
